@@ -162,7 +162,11 @@ func c12Run(c core.Case) *core.Result {
 				switch op.Op {
 				case 'W':
 					atomic.AddInt64(&offered, int64(op.Len))
-					n, err := bw.Write(payloads[i])
+					scratch := append([]byte(nil), payloads[i]...)
+					n, err := bw.Write(scratch)
+					for k := range scratch {
+						scratch[k] ^= 0x5a // the writer must not retain the caller's buffer
+					}
 					if err != nil || n != op.Len {
 						r.Violate("writer|call-error", "%s: op %d Write(%d) = (%d, %v)", cfg, i, op.Len, n, err)
 						bw.Close()
